@@ -301,9 +301,19 @@ def spec_holds(case, obs, spec):
     return out == spec
 
 
+def _dollar_symptoms():
+    """Does the implementation under test show the two symptoms of the finding (public seam: _compile_route)?"""
+    if 'dollar' not in _impl:
+        from pyramid.urldispatch import _compile_route
+        _impl['dollar'] = (_compile_route('/x')[0]('/x\n') is not None) or (_compile_route('/*r')[0]('/a\nb') is None)
+    return _impl['dollar']
+
+
 def classify(case, obs, spec):
-    # DESIGN section 5 item 1: '$' anchor / '.*?' without DOTALL -- only paths with a newline are affected
-    if '\n' in _decoded(case):
+    # DESIGN section 5 item 1: '$' anchor / '.*?' without DOTALL.  Exactly that finding: the implementation shows
+    # the symptom on the two-line probe above AND the decoded path of this case contains a newline (by
+    # C01_match_whole_partial a newline-free path cannot be affected by the anchor or the remainder group).
+    if '\n' in _decoded(case) and _dollar_symptoms():
         return 'C01-dollar-newline'
     return None
 
